@@ -8,7 +8,7 @@ from impl import ImplRunner, state_wire, result_wire, mat_wire
 import scen
 
 
-def explore(sd, scenario, modes=(0, 1, 0), max_states=300, rng=None, paths=3, depth=6, sample=120, objects=True):
+def explore(sd, scenario, modes=(0, 1, 0), max_states=300, rng=None, paths=3, depth=6, sample=80, objects=True):
     runner = ImplRunner(scenario, sd, list(modes))
     env, shim, lay = runner.env, runner.shim, runner.lay
     flat = run_driver([[1, scen.sd_wire(sd)]])[0][0]
